@@ -90,6 +90,9 @@ func (o *Op) Line() string {
 			switch m.Kind {
 			case "create", "update":
 				parts = append(parts, m.Kind, hs(m.ID), m.Rule.Line())
+			case "nodrop":
+				// `drop: false` on the wire: the same no-op as a modification with nothing set
+				parts = append(parts, "noop", hs(m.ID))
 			default:
 				parts = append(parts, m.Kind, hs(m.ID))
 			}
@@ -546,6 +549,8 @@ func (e *Env) Exec(cop core.Op) (resp string) {
 				mod.Mod = &btapb.ModifyColumnFamiliesRequest_Modification_Update{Update: &btapb.ColumnFamily{GcRule: m.Rule.Proto()}}
 			case "drop":
 				mod.Mod = &btapb.ModifyColumnFamiliesRequest_Modification_Drop{Drop: true}
+			case "nodrop":
+				mod.Mod = &btapb.ModifyColumnFamiliesRequest_Modification_Drop{Drop: false}
 			}
 			req.Modifications = append(req.Modifications, mod)
 		}
